@@ -376,3 +376,13 @@ Example dl_rearm :
   timers (fst (step s (ASetDeadline 2 1 None))) = [] /\
   s_timeout (scopes (fst (step s (ASetDeadline 2 1 None))) 1) = None.
 Proof. vm_compute. repeat split; reflexivity. Qed.
+
+(* after the block is left: no handle, no timer, nothing in the ready queue *)
+Example dl_after_exit :
+  let s := final step init [ANewRoot; AFailAt 1 (Some 5%Z) false; AExit 1 1 true] in
+  reach_wf s /\ s_active (scopes s 1) = false /\ s_timeout (scopes s 1) = None /\ timers s = [] /\
+  live s 1 = 0.
+Proof.
+  split; [exists [ANewRoot; AFailAt 1 (Some 5%Z) false; AExit 1 1 true]; split; [cbn; tauto|reflexivity]|].
+  vm_compute. repeat split; reflexivity.
+Qed.
